@@ -72,6 +72,13 @@ func (rt *Transfer) recvFile1(f *File) error {
 }
 
 func (rt *Transfer) openLocalFile(f *File) (*os.File, error) {
+	if st, err := rt.DestRoot.Lstat(f.Name); err == nil && !st.Mode().IsRegular() && !st.IsDir() {
+		// Not usable as a basis, and opening it may not even return:
+		// open(2) on a FIFO blocks until a writer shows up, so a peer
+		// sending file data for the index of a FIFO entry would park
+		// this session (goroutine and connection) forever.
+		return nil, nil
+	}
 	in, err := rt.DestRoot.Open(f.Name)
 	if err != nil {
 		return nil, err
